@@ -40,8 +40,11 @@ package contextscope
 //@ func (*ContextScope).IsDone [C12]
 //@   modifies $none
 //@   ensures !result && locked(s.errorsMU) ==> !closed(s.done)
+// the accessors report the list as it is now: every error appended so far, in order, in a copy
 //@ func (*ContextScope).Err [C12]
 //@ func (*ContextScope).Errors [C12]
+//@   ensures len(result) == len(s.errors) && forall(k, 0 <= k && k < len(result) ==> result[k] == s.errors[k])
+//@   ensures len(result) > 0 ==> arr(result) != arr(s.errors)
 
 //@ func (*Isolated).AppendError [C12]
 //@   requires scp.done != nil
@@ -62,6 +65,8 @@ package contextscope
 //@   ensures !result && locked(scp.errorsMU) ==> !closed(scp.done)
 //@ func (*Isolated).Err [C12]
 //@ func (*Isolated).Errors [C12]
+//@   ensures len(result) == len(scp.errors) && forall(k, 0 <= k && k < len(result) ==> result[k] == scp.errors[k])
+//@   ensures len(result) > 0 ==> arr(result) != arr(scp.errors)
 
 // an isolated context is a distinct object; its watcher kills it when the parent ended with
 // errors and stops it when the parent just stopped
